@@ -49,6 +49,8 @@ def faults(ctx, child, extra_when=()):
     for w in extra_when:
         combos += [(s, sc, w, prior, "EIO") for (s, sc, _, prior) in FAULTS]
     combos += [(s, sc, "1+", None, e) for (s, sc) in PERSISTENT for e in PERSISTENT_ERRNOS]
+    # errnos that an implementation may be tempted to read as "nothing to do"
+    combos += [(s, sc, 1, None, e) for (s, sc) in PERSISTENT for e in ("EINVAL", "EROFS", "EDQUOT", "EBADF", "ENOSYS", "EOPNOTSUPP")]
     for (scen, sc, when, prior, errno) in combos:
         if os.path.exists(img):
             os.remove(img)
